@@ -14,42 +14,77 @@
 (*               line_above := the unfiltered row                          *)
 (* dev: "NoneKeepsAbove" - after a row of type 0 (None) line_above is not  *)
 (* replaced (a seeded change: the None branch `continue`s early).          *)
+(*                                                                         *)
+(* Sample VALUES are a dimension of their own: with an empty Palette the   *)
+(* samples are the arithmetic pattern of ImageOps.tla; otherwise every     *)
+(* assignment of palette values to the pixels is an image (component c of  *)
+(* a pixel takes the c-th next palette value, so every component plane     *)
+(* sees every assignment).  With a palette such as <<90, 100, 120>> a 2x2  *)
+(* image puts every triple (left, above, upper left) in front of the Paeth *)
+(* predictor, among them the ties between two of its three distances,      *)
+(* which PNG breaks in the order left, above, upper left:                  *)
+(*   pb = pc < pa   left 90, above 120, upper left 100 -> above            *)
+(*   pa = pc < pb   left 120, above 90, upper left 100 -> left             *)
+(*   pa = pb        only with left = above, or with pc = 0 (upper left     *)
+(*                  wins outright): |b-c| = |a-c| and a # b put c midway   *)
+(* dev: "PaethTieByValue" - a tie goes to the neighbour with the smaller   *)
+(* VALUE (a seeded change: min() over (distance, value) pairs).            *)
 (***************************************************************************)
 EXTENDS PredictorOps, Sequences, Json, TLC
 
 CONSTANTS Shapes,       \* set of <<kind, w, h>>, kind "bw" | "gray" | "rgb"
+          RowTypes,     \* the row filter types to choose from (subset of 0..4)
+          Palette,      \* sequence of sample values, <<>> = the arithmetic pattern
           DevChoices
 
-VARIABLES kind, w, h, types, dev, phase, r, enc, above, out
-vars == <<kind, w, h, types, dev, phase, r, enc, above, out>>
+VARIABLES kind, w, h, types, pix, dev, phase, r, enc, above, out
+vars == <<kind, w, h, types, pix, dev, phase, r, enc, above, out>>
 
 Colors == IF kind = "rgb" THEN 3 ELSE 1
 Bits == IF kind = "bw" THEN 1 ELSE 8
 RL == RowLength(Colors, w, Bits)
 BPP == BytesPerPixel(Colors, Bits)
 \* the q-th byte (from 0) of the image data, as in ImageOps.tla for small images
-Sample(q) == (3 * q + 1) % 256
+Sample(q) == IF Palette = <<>> THEN (3 * q + 1) % 256
+             ELSE Palette[((pix[(q \div Colors) + 1] - 1 + (q % Colors)) % Len(Palette)) + 1]
 Row(k) == [j \in 1..RL |-> Sample((k - 1) * RL + j - 1)]          \* k-th row, from 1
 Samples == [q \in 1..(RL * h) |-> Sample(q - 1)]
 
 Init == /\ \E s \in Shapes : kind = s[1] /\ w = s[2] /\ h = s[3]
-        /\ types \in [1..h -> 0..4] /\ dev \in DevChoices
+        /\ types \in [1..h -> RowTypes] /\ dev \in DevChoices
+        /\ pix \in (IF Palette = <<>> THEN {<<>>} ELSE [1..(w * h) -> 1..Len(Palette)])
         /\ phase = "write" /\ r = 1 /\ enc = <<>> /\ above = <<>> /\ out = <<>>
 
 AWriteRow == /\ phase = "write" /\ r <= h
              /\ enc' = enc \o <<types[r]>> \o FilterRow(types[r], Row(r), IF r = 1 THEN Zeros(RL) ELSE Row(r - 1), BPP)
-             /\ r' = r + 1 /\ UNCHANGED <<kind, w, h, types, dev, phase, above, out>>
+             /\ r' = r + 1 /\ UNCHANGED <<kind, w, h, types, pix, dev, phase, above, out>>
 AWriteDone == /\ phase = "write" /\ r > h /\ phase' = "read" /\ r' = 1 /\ above' = CodedAbove0(Colors, w, Bits, {})
-              /\ UNCHANGED <<kind, w, h, types, dev, enc, out>>
+              /\ UNCHANGED <<kind, w, h, types, pix, dev, enc, out>>
+\* the seeded tie-break: the smallest (distance, value) pair
+Least2(x, y) == IF x <= y THEN x ELSE y
+PaethByValue(a, b, c) ==
+  LET p == a + b - c  pa == Abs(p - a)  pb == Abs(p - b)  pc == Abs(p - c)
+      m == Least2(pa, Least2(pb, pc))
+      cands == {x \in {<<pa, a>>, <<pb, b>>, <<pc, c>>} : x[1] = m}
+  IN CHOOSE v \in {x[2] : x \in cands} : \A u \in {x[2] : x \in cands} : v <= u
+RECURSIVE TieGo(_, _, _, _)
+TieGo(line, abv, bpp, raw) ==
+  IF Len(raw) = Len(line) THEN [raw |-> raw, err |-> "none"]
+  ELSE LET j == Len(raw) + 1
+           a == IF j - bpp >= 1 THEN raw[j - bpp] ELSE 0
+           b == abv[j]
+           c == IF j - bpp >= 1 THEN abv[j - bpp] ELSE 0
+       IN TieGo(line, abv, bpp, Append(raw, (line[j] + PaethByValue(a, b, c)) % 256))
+
 AReadRow == /\ phase = "read" /\ r <= h
             /\ LET at == (r - 1) * (RL + 1)
                    ty == enc[at + 1]
                    line == SubSeq(enc, at + 2, at + 1 + RL)
-                   res == CodedRow(ty, line, above, BPP) IN
+                   res == IF ty = 4 /\ "PaethTieByValue" \in dev THEN TieGo(line, above, BPP, <<>>) ELSE CodedRow(ty, line, above, BPP) IN
                /\ out' = out \o res.raw
                /\ above' = IF ty = 0 /\ "NoneKeepsAbove" \in dev THEN above ELSE res.raw
-            /\ r' = r + 1 /\ UNCHANGED <<kind, w, h, types, dev, phase, enc>>
-AReadDone == /\ phase = "read" /\ r > h /\ phase' = "done" /\ UNCHANGED <<kind, w, h, types, dev, r, enc, above, out>>
+            /\ r' = r + 1 /\ UNCHANGED <<kind, w, h, types, pix, dev, phase, enc>>
+AReadDone == /\ phase = "read" /\ r > h /\ phase' = "done" /\ UNCHANGED <<kind, w, h, types, pix, dev, r, enc, above, out>>
 Next == AWriteRow \/ AWriteDone \/ AReadRow \/ AReadDone
 Spec == Init /\ [][Next]_vars
 
@@ -61,5 +96,5 @@ RefInverts == phase = "read" => \A k \in 1..h :
   UnfilterRow(types[k], FilterRow(types[k], Row(k), IF k = 1 THEN Zeros(RL) ELSE Row(k - 1), BPP), IF k = 1 THEN Zeros(RL) ELSE Row(k - 1), BPP) = Row(k)
 EncLength == phase # "write" => Len(enc) = h * (RL + 1)
 EmitTerminal == phase = "done" =>
-  PrintT("@@" \o ToJson([kind |-> kind, w |-> w, h |-> h, types |-> types, dev |-> dev, enc |-> enc, out |-> out]))
+  PrintT("@@" \o ToJson([kind |-> kind, w |-> w, h |-> h, types |-> types, pix |-> pix, pal |-> Palette, dev |-> dev, enc |-> enc, out |-> out]))
 =============================================================================
